@@ -29,10 +29,14 @@ CONSTANTS
     NThreads,     \* threads are 1..NThreads
     StoreOf,      \* sequence: context instance -> storage id (shared() instances alias 0)
     InstKind,     \* sequence: how the instance is obtained: "new" | "shared" | "default" | "setup"
+                  \* | "empty" (emit::Empty used as a Ctxt) | "none" (Option::<C>::None)
                   \* (ThreadLocalCtxt::new(), ::shared(), ::default(), the context of a runtime
                   \* built by emit::setup()...init_slot(fresh slot)); only "shared" may alias
     NKeys,        \* property keys are 1..NKeys; a property map is a tuple, 0 = absent
     PropChoices,  \* property maps offered to Open (keys are distinct by construction)
+    DupChoices,   \* property SETS WITH DUPLICATE KEYS offered to Open: sequences of <<key, value>> pairs.
+                  \* Within one pushed set the first value of a key wins (C02); the set as a whole then
+                  \* overlays the snapshot (push) or stands alone (root).  ({} = none offered)
     Kinds,        \* subset of {"push", "root", "disabled", "current"}
     Forms,        \* subset of {"guard", "call"}: how a frame is entered synchronously
     MaxFrames, MaxTasks, MaxDepth,
@@ -99,7 +103,13 @@ CxOpen(c, t, i, kind, props) ==
     LET s == StoreOf[i]
         vis == Visible(c, t, s)         \* level A
         amb == c.act[t][s]              \* level B: current(self.id)
-    IN [c EXCEPT !.fr[NextFrame(c)] =
+    IN IF InstKind[i] \in {"empty", "none"}
+       \* a context that stores nothing (Empty as Ctxt, Option::None): frames can be opened,
+       \* entered and left like any other, and nothing is ever visible through it
+       THEN [c EXCEPT !.fr[NextFrame(c)] =
+               [st |-> "idle", inst |-> i, kind |-> kind, logical |-> NoProps, held |-> NoProps]]
+       ELSE
+       [c EXCEPT !.fr[NextFrame(c)] =
           [st |-> "idle", inst |-> i, kind |-> kind,
            logical |-> CASE kind = "push" -> Overlay(vis, props)
                          [] kind = "root" -> props
@@ -151,6 +161,19 @@ Open(t, i, kind, props) ==
     /\ cx' = CxOpen(cx, t, i, kind, props)
     /\ Log([op |-> "open", t |-> t, s |-> StoreOf[i], f |-> NextFrame(cx), c |-> i, kind |-> kind,
             props |-> props])
+
+\* the property map a sequence of pairs denotes: the first value of every key
+EffProps(pairs) ==
+    [k \in 1..NKeys |->
+        IF \E n \in 1..Len(pairs) : pairs[n][1] = k
+        THEN pairs[SetMin({n \in 1..Len(pairs) : pairs[n][1] = k})][2] ELSE 0]
+
+\* Frame::push / root of a property set that names a key more than once
+OpenDup(t, i, kind, pairs) ==
+    /\ FreeFrames(cx) # {}
+    /\ cx' = CxOpen(cx, t, i, kind, EffProps(pairs))
+    /\ Log([op |-> "open", t |-> t, s |-> StoreOf[i], f |-> NextFrame(cx), c |-> i, kind |-> kind,
+            props |-> EffProps(pairs), pairs |-> pairs])
 
 Enter(t, f, form) ==
     /\ cx.fr[f].st = "idle"
@@ -225,6 +248,8 @@ Next ==
     \/ \E t \in Threads, i \in Insts, kind \in Kinds \ {"current"}, p \in PropChoices :
           Open(t, i, kind, p)
     \/ \E t \in Threads, i \in Insts : "current" \in Kinds /\ Open(t, i, "current", NoProps)
+    \/ \E t \in Threads, i \in Insts, kind \in Kinds \cap {"push", "root"}, d \in DupChoices :
+          OpenDup(t, i, kind, d)
     \/ \E t \in Threads, f \in Frames, form \in Forms : Enter(t, f, form)
     \/ \E t \in Threads : Exit(t)
     \/ \E t \in Threads, f \in Frames : With(t, f)
